@@ -140,6 +140,21 @@ CLAIMED['C19'] = dict(
     technique="Lean 4 theorems (policy = documented table) + method-body bridge + exhaustive policy tables + create/update runs",
     ref='§7 C19')
 
+CLAIMED['C16'] = dict(
+    text=("The ancestor bookkeeping of the three walkers on a directory *graph* (identities = (device, inode), named edges include "
+          "directory symlinks, so cycles exist): Gr.walk is defined by well-founded recursion on (number of identities + 1 - length "
+          "of the duplicate-free ancestor list) - that Lean's kernel accepts the definition is the termination theorem for every "
+          "finite graph. Proved on top: every visited directory lies at depth < number of identities and, with a device set, on that "
+          "device (C16_depth_and_device); a link to an ancestor raises the loop error, a directory on another device the "
+          "cross-device error (C16_loop_raises, C16_cross_device_raises, C16_loop_in_first_kid); a link to a non-ancestor is visited "
+          "like any directory (C16_other_links_followed). Tie: Bridge.Tree (the three os.walk call sites, the decision points of the "
+          "walk); real trees with symlinks (self, parent, ancestor, sibling, mutual, chains, IGNOREd or not) through verify, "
+          "unregistered-Manifest scan and update under a wall-clock bound, against an independent ancestor-identity oracle and "
+          "against the tree-level Lean model with cycles unfolded from the disk; one-file-system mode with st_dev overridden."),
+    note=TB + "The graph model abstracts pruning into its kids relation; that the code's pruning/recording matches is covered by the tree-level model runs (C01/C07 model) on the same trees. File-level device checks are exercised, not part of the graph theorem.",
+    technique="Lean 4 well-founded recursion (termination accepted by the kernel) + invariant theorems + bridge + real symlink trees",
+    ref='§7 C16')
+
 PENDING = ['C01', 'C02', 'C03', 'C04', 'C05', 'C06', 'C07', 'C08', 'C10', 'C11', 'C12', 'C13', 'C14', 'C15', 'C16',
            'C17', 'C18', 'C19', 'C20']
 
